@@ -79,25 +79,53 @@ func TestC12(t *testing.T) {
 			}
 		}
 	}
+	// empty store: readers wait before the store has any header; the first batch initialises Head/Tail/Height
+	for _, wb := range []int{1, 64} {
+		for _, first := range []uint64{1, 10} {
+			for _, batch := range [][]uint64{{0}, {0, 1, 2}, {0, 2}} {
+				for _, phase := range []string{"", "store.flush.afterPendingAppend", "store.flush.afterNotify"} {
+					p := c12P{WB: wb, Flavour: "plain", Base: 0, DelaysUs: map[string]int{}}
+					if phase != "" {
+						p.DelaysUs[phase] = 3000
+					}
+					var hs []uint64
+					for _, o := range batch {
+						hs = append(hs, first+o)
+						p.Readers = append(p.Readers, c12Reader{H: first + o, StartUs: 1000})
+					}
+					p.Readers = append(p.Readers, c12Reader{H: first + 3, StartUs: 1500})
+					p.Appends = []c12Append{{AtUs: 5000, Hs: hs}, {AtUs: 30000, Hs: []uint64{first + 3}}}
+					mon.Emit(r, "script", p, "script/empty-store")
+				}
+			}
+		}
+	}
 	// PRNG cases
 	rng := r.Rand("random")
 	for i := 0; i < r.N(300, 10000); i++ {
 		p := c12P{WB: []int{1, 2, 64}[rng.Intn(3)], Flavour: []string{"plain", "ctx"}[rng.Intn(2)], Base: 3 + rng.Intn(4), Random: uint64(1 + rng.Intn(1<<30))}
 		top := uint64(p.Base)
+		if rng.Intn(6) == 0 {
+			p.Base, top = 0, uint64(rng.Intn(20)) // empty store; the appended heights start at top+1
+		}
 		nr := 1 + rng.Intn(4)
 		for j := 0; j < nr; j++ {
 			rd := c12Reader{H: top + 1 + uint64(rng.Intn(6)), StartUs: rng.Intn(30000)}
 			if rng.Intn(5) == 0 {
 				rd.CancelUs = rd.StartUs + 1 + rng.Intn(40000)
 			}
-			if rng.Intn(8) == 0 {
+			if rng.Intn(8) == 0 && p.Base > 0 {
 				rd.H = 1 + uint64(rng.Intn(p.Base)) // already stored
 			}
 			p.Readers = append(p.Readers, rd)
 		}
 		// appends cover top+1..top+6 in random grouping/order
 		hs := []uint64{top + 1, top + 2, top + 3, top + 4, top + 5, top + 6}
-		switch rng.Intn(3) {
+		mode := rng.Intn(3)
+		if p.Base == 0 && mode == 1 {
+			mode = 0 // on an empty store the lowest height goes first (appends below the tail are C04's business)
+		}
+		switch mode {
 		case 1:
 			rng.Shuffle(len(hs), func(a, b int) { hs[a], hs[b] = hs[b], hs[a] })
 		case 2: // leave one height out for good (readers of it must end with their context)
@@ -106,7 +134,11 @@ func TestC12(t *testing.T) {
 		}
 		for len(hs) > 0 {
 			n := 1 + rng.Intn(min(3, len(hs)))
-			p.Appends = append(p.Appends, c12Append{AtUs: rng.Intn(50000), Hs: hs[:n:n]})
+			at := rng.Intn(50000)
+			if p.Base == 0 {
+				at = 1000*len(p.Appends) + rng.Intn(900) // ascending groups in ascending time
+			}
+			p.Appends = append(p.Appends, c12Append{AtUs: at, Hs: hs[:n:n]})
 			hs = hs[n:]
 		}
 		mon.Emit(r, "script", p, "script/random")
@@ -135,7 +167,7 @@ func c12Run(c *mon.Case, p c12P) {
 		for pt, us := range p.DelaysUs {
 			ctl.DelayAll(pt, time.Duration(us)*time.Microsecond)
 		}
-		e := &env{c: c, d: memds.New(), cfg: Cfg{SC: 8, IC: 8, WB: p.WB, Flavour: p.Flavour}, chain: newChain(p.Base + 12), P: map[uint64]bool{}}
+		e := &env{c: c, d: memds.New(), cfg: Cfg{SC: 8, IC: 8, WB: p.WB, Flavour: p.Flavour}, chain: newChain(p.Base + 40), P: map[uint64]bool{}}
 		if err := e.open(); err != nil {
 			c.Trivial()
 			return
@@ -149,11 +181,13 @@ func c12Run(c *mon.Case, p c12P) {
 		for i := range base {
 			base[i] = uint64(i + 1)
 		}
-		if err := e.appendHs(base...); err != nil {
-			c.Violation("append-fails", fmt.Sprint(err), nil)
-			return
+		if len(base) > 0 {
+			if err := e.appendHs(base...); err != nil {
+				c.Violation("append-fails", fmt.Sprint(err), nil)
+				return
+			}
+			_ = e.sync()
 		}
-		_ = e.sync()
 		defer ctl.Install()()
 		if p.Random != 0 && p.Random%3 != 0 {
 			// a slow disk: datastore operations take PRNG virtual time before and after they take effect
@@ -246,7 +280,15 @@ func c12Run(c *mon.Case, p c12P) {
 				kind = "stored"
 			}
 			contig := "contiguous-run"
-			for h := uint64(p.Base) + 1; h < rd.H; h++ {
+			lowest := uint64(p.Base) + 1
+			if p.Base == 0 {
+				contig = "first-batch-run"
+				lowest = rd.H
+				for h := range appended {
+					lowest = min(lowest, h)
+				}
+			}
+			for h := lowest; h < rd.H; h++ {
 				if !appended[h] {
 					contig = "beyond-gap"
 				}
